@@ -119,6 +119,16 @@ def second_operands(z, cls, dt, backend):
            ("signal same class", make_sig(cls, dt, backend, True))]
     if zo_data.shape == shape:
         ops.append(("signal other class", make_sig(other_cls, odt, backend, True)))
+    # signal operands of another dimensionality: NumPy aligns TRAILING axes of the underlying arrays
+    def plain(arr):
+        if backend == "dask":
+            arr = da.from_array(arr, chunks=arr.shape)
+        return pb.Signal(arr, sample_rate=1 * u.MHz)
+    ops.append(("signal with fewer dimensions (trailing axis)", plain(np.arange(1.0, shape[-1] + 1))))
+    if len(shape) > 1 and shape[0] != shape[-1]:
+        ops.append(("signal with fewer dimensions (time length, not broadcastable)", plain(np.arange(1.0, shape[0] + 1))))
+    elif len(shape) == 1:
+        ops.append(("signal with one more dimension", plain(np.arange(2.0 * shape[0]).reshape((2,) + shape) - 3)))
     return ops
 
 
@@ -337,7 +347,14 @@ def forms_case(case, res):
         zk = make_sig(cls, dt, be)
         refd = materialise(zk.data)
         for nm, fn, want in (("dtype=", lambda: np.add(zk, 1, dtype=np.float64), np.add(refd, 1, dtype=np.float64)),
-                             ("casting=", lambda: np.multiply(zk, 2, casting="same_kind"), np.multiply(refd, 2, casting="same_kind"))):
+                             ("casting=", lambda: np.multiply(zk, 2, casting="same_kind"), np.multiply(refd, 2, casting="same_kind")),
+                             # dtype= selects the type the computation is DONE in (not a cast of the finished result)
+                             ("dtype= wider computation (third)", lambda: np.multiply(zk, 1 / 3, dtype=np.float64),
+                              np.multiply(refd, 1 / 3, dtype=np.float64)),
+                             ("dtype= wider computation (1e9)", lambda: np.multiply(zk, 10 ** 9, dtype=np.int64 if kind == "i" else np.float64),
+                              np.multiply(refd, 10 ** 9, dtype=np.int64 if kind == "i" else np.float64)),
+                             ("dtype= wider computation (square)", lambda: np.multiply(zk, zk, dtype=np.float64),
+                              np.multiply(refd, refd, dtype=np.float64))):
             ok_, wc = class_cast(type(zk), np.asarray(want))
             try:
                 r = fn()
